@@ -446,7 +446,9 @@ func (d *Drv) Quiesce(limit time.Duration) bool {
 	for {
 		if d.stableNow() {
 			stableFor++
-			if stableFor >= 3 {
+			// the gate's and the hand's ready groups register an answer a moment after the call returned (syncsaga passes it
+			// through a channel): "stable" has to hold for a few milliseconds
+			if stableFor >= 8 {
 				return true
 			}
 		} else {
@@ -455,7 +457,7 @@ func (d *Drv) Quiesce(limit time.Duration) bool {
 		if time.Now().After(deadline) {
 			return false
 		}
-		time.Sleep(150 * time.Microsecond)
+		time.Sleep(400 * time.Microsecond)
 	}
 }
 
